@@ -5,7 +5,7 @@ from ..families import event as fam
 INVS = ["IrqMeansPendingAndEnabled", "PendingRule", "ClearOnlyByW1C", "StatusShowsRaw", "EnableIsWritten",
         "SharedIrqIsOr", "ReadBack"]
 FAMILY = GFamily("event/EventGraph", "event/EventTrace", "harness.families.event:make",
-                 clause_map={k: k for k in INVS},
+                 fmt="hash", clause_map={k: k for k in INVS},
                  describe=lambda s: "EventManager(kinds=%s, mgr=%s)" % (s["kinds"], s["mgr"]))
 
 
